@@ -1651,7 +1651,9 @@ def r12o(ctx, rep, rule="R12o"):
         rule, key, "no frame of a stack trace owns a deep copy of a datum (%d clone%s in the loop, none of a Cell)" % (n, "" if n == 1 else "s") if not bad else
         "StackTrace::new deep-copies a Cell into every frame: the trace of a failure at depth n holds n copies of the procedure's "
         "formals until the next evaluation", bad)
-    rep.floor(rule, "clones inside the frame loop of StackTrace::new", n, 1)
+    frames = len([1 for bb, j, st in f.stmts() if bb in body and st["rv"]["k"] == "agg" and
+                  (st["rv"].get("adt") or "").endswith("trace::StackFrame")])
+    rep.floor(rule, "frames built inside the loop of StackTrace::new", frames, 1)
 
 
 def _gate_every_instruction(facts):
